@@ -815,7 +815,7 @@ func c42GitBig(c *rig.Ctx, part uint64) []int {
 		return []int{40}
 	}
 	if part > 0 {
-		return []int{40, 1000, int(part) * 400} // every part read is a git process: keep part counts in the hundreds
+		return []int{40, 1000, int(part) * 120} // every part read is a git process: keep part counts in the hundreds
 	}
 	return []int{40, 1000, 100000}
 }
